@@ -2,7 +2,7 @@
 import ast
 
 from ..model import AnchorError, call_name, const_str, dotted, src
-from ..rules import FuncView, defect_scope
+from ..rules import FuncView, defect_scope, path_condition, formula_equiv
 from . import _http
 
 EXPLANATION = (
@@ -32,6 +32,7 @@ def check(ctx):
     d = pl.args.defaults
     ok = ok and any(src(x).replace(" ", "") == "(CRLF,LF,CR)" for x in d)
     ctx.check(ok, "T6-eols", pe, "event lines end at CRLF, LF or CR", "")
+    resume_rule(ctx)
     ctx.rule("T1-consume", "event-stream bytes are deleted only after a complete line was found")
     ctx.rule("T1-scan", "line searches cover the whole unconsumed buffer")
     ctx.rule("T1-wait", "a buffer prefix is read only after that many bytes are present")
@@ -39,3 +40,16 @@ def check(ctx):
     _http.scan_offsets(ctx, "T1-scan")
     _http.wait_before_read(ctx, "T1-wait")
     defect_scope(ctx, "D-scope", [m for m in E.methods.values()], max_depth=1, floor=5, label="scope: EventSource")
+
+
+def resume_rule(ctx):
+    """EventSource.parse resumes the event parser whenever there is one: whether new bytes arrived is for the parser to see"""
+    ctx.rule("T2-resume", "EventSource.parse: next(self.parser) iff self.parser (no other condition decides whether the stream is looked at)")
+    f = ctx.cls("aio.http.httping", "EventSource").own_method("parse")
+    V = FuncView(ctx, f)
+    nx = [n for n, c in V.calls("next") if c.args and src(V.sym(c.args[0], n)) == "self.parser"]
+    V.need(nx, "next(self.parser) in EventSource.parse")
+    pc = ("or", [path_condition(V, n, start=[V.cfg.entry.id]) for n in nx])
+    ctx.check(formula_equiv(pc, "self.parser"), "T2-resume", nx[0].ast, "EventSource.parse: next(self.parser) under `self.parser` alone",
+              "a receive that the extra condition judges uninteresting (same buffer length as before the previous parse, ..) is "
+              "skipped: its events, retry and last-event-id are missing or late, depending on how the stream was cut into receives")
